@@ -11,4 +11,12 @@ CLAIMED = {
                 "constants rounded to 4-6 digits are accepted within 2e-4; unit_to=None on a same-basis call means keep.",
         "technique": "property-based testing: exhaustive pair/triple enumeration x hypothesis-generated operands, algebraic laws + reference model oracle",
     },
+    "C20": {
+        "text": "Registry part exhaustive (176 JSON entries x every name/alias x 5 case variants, unique ownership, JSON vs "
+                "default.db, isotherm linkage) plus hypothesis-drawn casings; thermodynamic relations and the unit argument "
+                "checked on generated (adsorbate, T1<T2, unit) against CoolProp PropsSI; fallback typing on generated user "
+                "adsorbates. Exploration for the continuum, exhaustive for the registry.",
+        "note": "Trusts CoolProp HEOS; temperatures in the inner 96 % of (Tt,Tc); only calculate=True paths.",
+        "technique": "property-based testing: exhaustive registry enumeration + hypothesis-generated thermodynamic/fallback cases against a PropsSI reference",
+    },
 }
